@@ -39,6 +39,7 @@ CONSTANTS Fams,        \* families explored: subset of {"reg","single","ns","stu
           CwdSet,      \* positions of the current working directory
           FormSet,     \* how sp1/sp2 are passed: "abs", "rel", "sym"
           MaxNsKids,   \* ... of one portion of a namespace package
+          MaxNsTotal,  \* ... of all portions together
           Emit
 
 \* ---- paths ---------------------------------------------------------------------------------------
@@ -343,6 +344,7 @@ InitFam ==
      /\ sg = 0 /\ skids = {} /\ chain = <<>>
   \/ /\ fam = "ns" /\ top = "ns"
      /\ \E Q \in NsPortions : kids \in [Q -> KidSets(NsKids, MaxNsKids)]
+     /\ Cardinality(UNION {{<<i, x>> : x \in kids[i]} : i \in DOMAIN kids}) <= MaxNsTotal
      /\ sg = 0 /\ skids = {} /\ chain = <<>>
   \/ /\ fam = "stubs" /\ top \in {"regular", "none"}
      /\ IF top = "none" THEN kids = <<>> ELSE \E h \in 1..2 : kids \in [{h} -> SUBSET {"a"}]
